@@ -6,6 +6,9 @@
 (*   {"ev":"reset"}                                  start of an independent sequence    *)
 (*   {"ev":"apply","c":[k,t,n,c,a],"r":value,"s":ENC}                                    *)
 (* ENC = {"T":[[name,cur,leader,last,[[seg,count]..],[[seg,leader]..]]..],"N":[[id,addr]..]} *)
+(* Counts and offsets are in units of floor(u64::MAX / MaxU64) (the runner multiplies     *)
+(* before the real call and divides the recorded values), so the real checked_add fails    *)
+(* exactly when Overflows holds and the rejecting branch is validated too.                 *)
 (* Same group/Abandon/Report pattern as Trace_WalrusAPI.                                 *)
 (***************************************************************************************)
 EXTENDS Metadata, Json, IOUtils, TLC
